@@ -14,7 +14,7 @@ PA = 'addr::PhysAddr'
 def run(chk):
     I = chk.I
     chk.trusted += ['x86abs transfer functions (bit-provenance, slice-affine) and models of checked_add / is_power_of_two',
-                    'C03: PhysAddr::new / VirtAddr::new_truncate are decided there and composed here']
+                    'PhysAddr::new / VirtAddr::new_truncate are decided by C03\'s constructor rules, run here as well, and composed']
     ks = range(64)
 
     def r1(fn_, args, sub=None, st=None):
@@ -150,6 +150,9 @@ def run(chk):
                     chk.ob('from-start', '%s<%s>::from_start_address(bit %d set) = Err' % (T.split('::')[-1], sname, j), bool(o) and all(x.kind == 'ret' and x.val.vname == 'Err' for x in o), 'paths %r' % (o,),
                            fn_site(I, fn_), nontrivial=(j == 0))
     chk.guard('pages', 'page / frame containment', pages)
+    # the constructors the typed forms re-validate through (PhysAddr::new, VirtAddr::new_truncate): shared with C03
+    from .c03 import constructors
+    chk.guard('constructor', 'address constructors', lambda: constructors(chk))
     chk.floor('obligations', len(chk.obs), 500)
 
 
